@@ -28,8 +28,8 @@ ASSUMPTIONS = [
     "point_density: data sets with at least one datum; scalar weights (vector weights are only compared with the model)",
     "set.pop() on a two-element set (ref_axes such as 'xx') is hash-order dependent: left unspecified by the model, not compared",
 ]
-PRE_LEAN = C.s2_trace_geom   # S2: to_cartesian / to_spherical / poles (six reference-axes strings) re-traced on every run
-EXTRA_LEAN_MODULES = ("Bridge.Geom",)
+PRE_LEAN = C.s2_trace_geom   # S2: to_cartesian / to_spherical / poles (six strings) and the five counting kernels of stats.py re-traced on every run
+EXTRA_LEAN_MODULES = ("Bridge.Geom", "Bridge.Kernels")
 TRUSTED = []
 
 TOL = 1e-9
